@@ -26,7 +26,12 @@ def pumps(ctx):
         ("res_chunklen", 1, b"HTTP/1.1 200 OK\r\nTransfer-Encoding: chunked\r\n\r\n", b"GET / HTTP/1.1\r\n" + H + b"\r\n"),
     ]
     for soft, hard in lattice:
-        for name, d, prefix, other in sites:
+        # a header assembled from folded lines that each arrive whole (no buffering, so no limit check) to more than the hard limit,
+        # followed by an unterminated line: the pending header counts towards what is retained
+        fl = b"".join(b" " + b"f" * max(1, (hard * 2) // 3) + b"\r\n" for _ in range(3))
+        fsites = [("req_afterfold", 0, b"GET / HTTP/1.1\r\n" + H + b"X-F: s\r\n" + fl, b""),
+                  ("res_afterfold", 1, b"HTTP/1.1 200 OK\r\nX-F: s\r\n" + fl, b"GET / HTTP/1.1\r\n" + H + b"\r\n")]
+        for name, d, prefix, other in sites + fsites:
             unit = {"req_line": b"G", "res_line": b"H", "req_folded": b" ", "req_chunklen": b"1", "res_chunklen": b"1"}.get(name, b"X")
             lead = b" f" if name == "req_folded" else b""
             for L in sorted({hard - 1, hard, hard + 1, hard + 7, 2 * hard + 3, max(1, hard // 2)}):
